@@ -171,6 +171,81 @@ def run_module(unit, path, module, seed, use_cache=True):
                 unstable=unstable, wall=wall, cached=False)
 
 
+def verus_fn_name(addr):
+    """the --verify-function pattern for a woven function address (`Type::name`, `::name`, `Trait@Type::name`)"""
+    a = addr.split('@')[-1]
+    return a[2:] if a.startswith('::') else a
+
+
+KEYWORDS = set('if while for loop match return let mut ref fn as in else break continue move unsafe where impl dyn Some None Ok Err Self self'.split())
+
+
+def callees(text):
+    """names called in a function text (functions, methods, macros, path tails), comments and strings blanked"""
+    from .extract import strip_map
+    st = strip_map(weave.blank_comments(text))
+    names = set(re.findall(r'([A-Za-z_]\w*)\s*!?\s*(?:::\s*<[^<>()]*>\s*)?\(', st))
+    return set(n for n in names if n not in KEYWORDS)
+
+
+def new_callees(f):
+    """callee names of the current text of f that do not occur in its pinned text (None: cannot tell)"""
+    try:
+        from .extract import Source
+        cur = weave.get_source(f.src)
+        s, e, _, _ = cur.find_fn(f.addr)
+        psrc = Source(os.path.join(weave.PINNED_ROOT, f.src), f.src)
+        ps, pe, _, _ = psrc.find_fn(f.addr)
+        return sorted(callees(cur.text[s:e]) - callees(psrc.text[ps:pe]))
+    except Exception:
+        return None
+
+
+def differential(degraded):
+    """DESIGN 11.10.  For each function whose proof-hook anchors were lost in this run: weave the PINNED text of the
+    same function (the sources the contracts were written against) with exactly those hooks left out and verify it.
+    True = the hooks were not needed for the proof on the pinned text, so a failure on the current text is
+    attributable to the changed code, not to the missing hooks.  False = cannot tell (undecided)."""
+    res, notes = {}, {}
+    force = {}
+    for f in degraded:
+        nc = new_callees(f)
+        if any(pin for (k, m, pin) in f.lost):
+            res[f.addr] = False
+            notes[f.addr] = 'a rewrite rule with a pinned number of sites fired a different number of times'
+        elif nc is None or nc:
+            # the rewritten body calls something the pinned body did not: its specification (or the lack of one) was never
+            # exercised by the proof, so a failure cannot be told from a missing specification
+            res[f.addr] = False
+            notes[f.addr] = 'the changed body calls functions the pinned body does not (%s)' % (', '.join(nc) if nc else 'unknown')
+        else:
+            force[f.addr] = set(k for (k, m, pin) in f.lost)
+    if not force:
+        return res, notes
+    try:
+        punit = weave.build_unit(pinned=True, force_drop=force)
+    except ExtractError as e:
+        for a in force:
+            res[a] = False
+            notes[a] = 'pinned sources could not be woven: %s' % e
+        return res, notes
+    path = runverus.write_unit(punit, '_pinned')
+
+    def one(f):
+        r = runverus.run_verus_path(path, rlimit=60, module=f.module, extra=['--verify-function', verus_fn_name(f.addr)])
+        fails, und, hard = runverus.classify(punit, r, path)
+        vr = ((r.get('summary') or {}).get('verification-results') or {})
+        ok = (not fails and not und and not hard and vr.get('errors') == 0 and (vr.get('verified') or 0) >= 1)
+        return f.addr, ok, ('pinned text verifies without the lost hooks' if ok else
+                            'pinned text does not verify without the lost hooks (%d failures, %d undecided, %d rejected; rc=%s)'
+                            % (len(fails), len(und), len(hard), r.get('rc')))
+    with cf.ThreadPoolExecutor(max_workers=4) as ex:
+        for (a, ok, note) in ex.map(one, [f for f in degraded if f.addr in force]):
+            res[a] = ok
+            notes[a] = note
+    return res, notes
+
+
 def vacuity_probe(unit, modules):
     """DESIGN 3.6: with `assert(false)` as the first statement of every
     contracted function, every function must FAIL; one that still verifies has
@@ -236,6 +311,9 @@ def write_replay(prop, unit, rec, oid, res):
                 note += ' Scenarios %s were run against the real library and did not fail.' % ', '.join(names)
     except Exception as e:  # replay is best effort
         note += ' (replay not run: %r)' % (e,)
+    f = rec.get('fn')
+    if f is not None and getattr(f, 'lost', None):
+        note += ' Proof hooks of this function no longer matched the source (%s); the pinned text of the function verifies without them, so the failure is attributed to the changed code.' % '; '.join(m for (k, m, pin) in f.lost)[:400]
     body = dict(property=prop, obligation=oid, key=key, kind=rec['kind'],
                 function=rec['addr'], source_site=rec['src'], site_text=site_text(rec),
                 contract_site=rec['tmpl'], verifier='verus', verifier_cmd=res['cmd'],
@@ -270,6 +348,23 @@ def check_property(prop, tier='quick', seed=0, kani_runner=None):
                     results[n] = fu.result()
                 except Exception as e:  # tool crash
                     errors.append('%s: internal error %r' % (n, e))
+
+    # functions whose anchors were lost and that have failures: decide by the differential run whether those count
+    degraded = {}
+    if unit:
+        for n in unit_names:
+            r = results.get(n)
+            for rec in (r['fails'] if r else []):
+                f = rec.get('fn')
+                if f is not None and f.lost:
+                    degraded[f.addr] = f
+    diff_ok, diff_notes = differential(list(degraded.values())) if degraded else ({}, {})
+    lost_report = []
+    if unit:
+        for f in unit.fns:
+            if f.lost:
+                lost_report.append(dict(fn='%s.%s' % (f.module, f.addr), lost=[m for (k, m, pin) in f.lost],
+                                        differential=diff_notes.get(f.addr, 'not needed: no failing obligation in this function')))
 
     violations, known_hits, undecided_msgs = [], [], list(errors)
     obligations, failed_slots = [], set()
@@ -310,6 +405,13 @@ def check_property(prop, tier='quick', seed=0, kani_runner=None):
             tags = failure_tags(unit, rec)
             oid = runverus.obligation_id(unit, rec)
             key = ob_key(unit, rec)
+            fdeg = rec.get('fn')
+            if fdeg is not None and fdeg.lost and not diff_ok.get(fdeg.addr):
+                if prop in tags or not tags:
+                    undecided_msgs.append('%s: %s fails, but proof hooks of %s were lost (%s) and %s: no verdict'
+                                          % (n, oid, fdeg.addr, '; '.join(m for (k, m, pin) in fdeg.lost)[:300],
+                                             diff_notes.get(fdeg.addr, 'no differential run')))
+                continue
             if prop not in tags:
                 kf = match_known(known, None, key, site_text(rec)) if False else None
                 relies_on_open.append(oid)
@@ -417,6 +519,7 @@ def check_property(prop, tier='quick', seed=0, kani_runner=None):
             known_findings=[dict(obligation=oid, what=k.get('what')) for (k, oid) in known_hits],
             relies_on_failing_obligations_of_other_properties=sorted(set(relies_on_open)),
             vacuity_probe=vac,
+            lost_anchors=lost_report,
             kani=kani_info,
             not_proved=pinfo.get('not_proved', []),
             rule='An obligation is one contract clause carrying an id (//# id) tagged with this property, '
